@@ -25,9 +25,11 @@ POOLS = {
     "fields": ["text", "text_content", "type"],
     "fields2": ["p_attr", "r_type", "p"],
     "xmlnsish": ["a", "b"],
+    "suffixlit": ["foo", "Foo", "FOO", "foo_2"],
+    "suffixgap": ["foo", "Foo", "FOO", "foo_3"],
     "attrcase": ["ID", "Id", "item"],
 }
-ATTRS = {"xmlnsish": ["xml:lang", "x:p", "xmlns:n", "xmlnsx:q"], "attrcase": ["id", "Id"], "default": ["p"], "fields": ["text", "type"], "fields2": ["p", "type"], "prefixed": ["xmlns:n", "n:p"]}
+ATTRS = {"suffixlit": ["foo", "foo_attr"], "suffixgap": ["foo"], "xmlnsish": ["xml:lang", "x:p", "xmlns:n", "xmlnsx:q"], "attrcase": ["id", "Id"], "default": ["p"], "fields": ["text", "type"], "fields2": ["p", "type"], "prefixed": ["xmlns:n", "n:p"]}
 
 
 def atom(ch):
@@ -178,21 +180,25 @@ def render_pools(rep, pid, tier, pools, relevant, opkinds=("add", "text", "optio
 
 
 def random_trees(rep, pid, tier, relevant, n=None, ops=40, opts="two", extra_opts=0, pool=None, api_trace=False, remove=1,
-                 kinds=None):
+                 kinds=None, root_bias=0, pool_all=False, tag="random"):
     """impl -> spec beyond the bounds: random operation sequences, judged by RenderTrace (and ApiTrace)"""
     n = n or (150 if tier == "quick" else 3000)
-    rtrace = os.path.join(c.OUT, "traces", "%s-render-random.ndjson" % pid)
-    atrace = os.path.join(c.OUT, "traces", "%s-api-random.ndjson" % pid)
+    rtrace = os.path.join(c.OUT, "traces", "%s-render-%s.ndjson" % (pid, tag))
+    atrace = os.path.join(c.OUT, "traces", "%s-api-%s.ndjson" % (pid, tag))
     args = ["api-record", "--seed", c.seed(), "--n", n, "--ops", ops, "--render-trace", rtrace, "--opts", opts,
             "--extra-opts", extra_opts, "--remove", remove]
     if pool:
         args += ["--pool", ",".join(pool)]
     if kinds:
         args += ["--kinds", ",".join(kinds)]
+    if root_bias:
+        args += ["--root-bias", root_bias]
+    if pool_all:
+        args += ["--pool-all", 1]
     if api_trace:
         args += ["--trace", atrace]
     s = c.harness(args)
-    cnt_n, infos, st = c.judge_trace("RenderTrace", rtrace, "%s-rt-random" % pid)
+    cnt_n, infos, st = c.judge_trace("RenderTrace", rtrace, "%s-rt-%s" % (pid, tag))
     events = c.read_ndjson(rtrace)
     cnt, drift = classify(rep, infos, relevant, events, "random operation sequences")
     rep.add(evaluations=sum(len(e["renders"]) for e in events), traces_validated_against_impl=cnt_n,
@@ -210,6 +216,10 @@ def c09_render(rep, tier):
     """C09, renderer half: field and struct order under both sort options"""
     render_pools(rep, "C09", tier, ["plain", "prefixed", "case", "attrcase"], C09_TAGS, opts="all", limit=120 if tier == "quick" else 5000)
     random_trees(rep, "C09", tier, C09_TAGS, opts="all", remove=0, n=60 if tier == "quick" else 1500, ops=25)
+    # scale instead of small scope: elements with many distinct children / attributes (positions >= 10)
+    wide = ["k%s" % ch for ch in "abcdefghijklmnopqr"]
+    random_trees(rep, "C09", tier, C09_TAGS, opts="two", remove=0, n=15 if tier == "quick" else 600, ops=80, pool=wide,
+                 kinds=["add", "add", "add", "add", "optional", "text"], root_bias=70, pool_all=True, tag="wide")
 
 
 def replay_render(obj, rep, relevant):
